@@ -52,7 +52,7 @@ func Check(c *Case) (res kit.Result) {
 	for _, t := range Types {
 		okT = okT || t == c.T
 	}
-	if !okT || c.C < 1 || c.C > 8 || c.K < 0 || c.K > 1<<21 || (c.K > 64 && c.G*c.M > 64) || c.L < 0 || c.L > c.K || c.G < 1 || c.G > 64 || c.M < 1 || c.M > 20000 || (c.M > 200 && c.C*c.K > 16) || c.Hold < 0 || c.Hold > 4 || c.Grow < 0 || c.Grow > 2 ||
+	if !okT || c.C < 0 || c.C > 8 || c.K < 0 || c.K > 1<<21 || (c.K > 64 && c.G*c.M > 64) || c.L < 0 || c.L > c.K || c.G < 1 || c.G > 64 || c.M < 1 || c.M > 20000 || (c.M > 200 && c.C*c.K > 16) || c.Hold < 0 || c.Hold > 4 || c.Grow < 0 || c.Grow > 2 ||
 		c.Procs < 1 || c.Procs > 64 || len(c.Yields) != c.G || len(c.ByValue) != c.G || c.Repeat < 1 || c.Repeat > 50 {
 		return
 	}
@@ -85,8 +85,14 @@ func Check(c *Case) (res kit.Result) {
 	if c.Table {
 		res.Class("ownershipTable")
 	}
-	if c.Grow > 0 && c.L < c.K && c.K <= 64 {
+	if c.Grow > 0 && c.L < c.K && c.K <= 64 && c.C > 0 {
 		res.Class("holdersGrowTheirBuffers")
+	}
+	if c.Grow > 0 && c.K == 0 && c.C >= 2 {
+		res.Class("buffersOfAnEmptyPoolGrowAndAreOfferedBack")
+	}
+	if c.C == 0 {
+		res.Class("poolOfBuffersWithoutChannels")
 	}
 	if c.LateCopy {
 		res.Class("allocatorCopiedWhileInUse")
@@ -114,6 +120,10 @@ func runOnce(c *Case) (string, int64) {
 	al := signal.Allocator{Channels: C, Length: L, Capacity: K}
 	pool := kit.NewAnyPool(c.T, al)
 	want := kit.Hdr{Len: C * L, Cap: C * K, Length: L, Capacity: K, Channels: C, BitDepth: kit.Info(c.T).Bits}
+	if C == 0 { // a pool of buffers without channels: no storage, whatever Length and Capacity say
+		want = kit.Hdr{BitDepth: kit.Info(c.T).Bits}
+		K, L = 0, 0
+	}
 	if c.Warm > 0 && c.Warm <= 8 {
 		var warm []kit.AnyBuf
 		for i := 0; i < c.Warm; i++ {
@@ -187,6 +197,20 @@ func runOnce(c *Case) (string, int64) {
 				bufs, fulls, stamps = bufs[:0], fulls[:0], stamps[:0]
 				if c.LateCopy && c.ByValue[g] && cycle%4 == 3 {
 					p = pool.Copy()
+				}
+				if c.Grow > 0 && K == 0 && C >= 2 && cycle%3 == 0 {
+					// a buffer of a pool without capacity grows by less than a frame (an Append is the only
+					// way it gets content) and is offered back: it holds storage now, so it is not the pool's
+					// to take (C15) - accepted or refused, the pool must go on handing out empty buffers
+					x := p.Get()
+					if h := x.Hdr(); h != want {
+						errs[g] = fmt.Sprintf("goroutine %d cycle %d: Get returned %+v, want %+v", g, cycle, h, want)
+						return
+					}
+					part := kit.AllocAny(c.T, signal.Allocator{Channels: C, Length: 0, Capacity: 1})
+					part.AppendSample(stampVal(g, cycle))
+					x.Append(part)
+					kit.Try(func() { p.Put(x) })
 				}
 				for hi := 0; hi < hold; hi++ {
 					b := p.Get()
@@ -335,6 +359,9 @@ func Gen(t *rapid.T) *Case {
 		c.G = rapid.SampledFrom([]int{3, 4, 8, 16, 32}).Draw(t, "gHammer")
 		c.M = rapid.SampledFrom([]int{500, 1000, 2000, 4000}).Draw(t, "mHammer") * 8 / c.G
 		c.Table = rapid.IntRange(0, 2).Draw(t, "table") == 0
+	}
+	if kit.Chance(t, "noChannels", 1, 15) {
+		c.C = 0 // Length and Capacity stay as drawn: the allocator value is what the pool was made from
 	}
 	c.Procs = rapid.SampledFrom([]int{1, 2, 4, 8, 16}).Draw(t, "procs")
 	c.GC = rapid.IntRange(0, 3).Draw(t, "gc") == 0 && !hammer
